@@ -22,7 +22,11 @@ F2 == Func("f2", "pub", <<>>, <<ArgC, Arg("a", TNm("u32"))>>, TNm("u32"), None, 
 G  == Func("g", "pub", <<>>, <<ArgM, Arg("q", TMPtr(TNm("D")))>>, TNone, None, None, "")
 H1 == Func("h1", "pub", <<>>, <<ArgM, Arg("z", TNm("u16"))>>, TNm("u16"), None, None, "stdcall")
 (* n = 3: two functions with a gap between them (slot 1 is a placeholder) *)
-BaseFuncs(n) == IF n = 3 THEN <<F1, [F2 EXCEPT !.index = 2]>> ELSE SubSeq(<<F1, F2>>, 1, n)
+(* n = 4: the second function has a name that starts with `_` (no wrapper is emitted for it, but it is a slot like any  *)
+(*        other: a derived block must repeat it with the same signature and convention)                               *)
+BaseFuncs(n) == IF n = 3 THEN <<F1, [F2 EXCEPT !.index = 2]>>
+                ELSE IF n = 4 THEN <<F1, [F2 EXCEPT !.name = "_f2", !.cc = "stdcall"]>>
+                ELSE SubSeq(<<F1, F2>>, 1, n)
 
 Mutate(f, v) ==
   CASE v = "rename"  -> [f EXCEPT !.name = "fx"]
@@ -109,6 +113,7 @@ MCInit ==
         /\ (v \in {"none", "same", "ext", "extm0", "emptyblk", "trunc", "swap", "short"} => k = 1)
         /\ (nb0 = 0 => v \in {"none", "ext", "extm0", "emptyblk"})
         /\ (v = "trunc" => nb0 = 2) /\ (v = "swap" => nb0 = 2) /\ (v = "short" => nb0 = 3)
+        /\ (nb0 = 4 => (~b1 /\ ~lead /\ ~split /\ dd \in {"none", "plain"} /\ clash = "no" /\ dvis = "pub" /\ xdn = "xd"))
         /\ (~b1 => ~b1v)
         /\ (clash \in {"renamed", "renamed2"} => (b1 /\ v \in {"none", "same"} /\ dd = "none" /\ ~lead /\ ~split))
         /\ (dd = "none" => ddv = "no")
